@@ -98,7 +98,7 @@ def build_sequence(spec) -> Sequence:
     elif basis == "raman":
         seq.declare_channel("ch", "raman_global")
     elif basis == "rydberg_local":
-        seq.declare_channel("ch", "rydberg_local", initial_target=ids[0])
+        seq.declare_channel("ch", "rydberg_local", initial_target=ids[spec.get("initial_target", 0)])
     elif basis == "mixed":
         seq.declare_channel("ch", "rydberg_global")
         seq.declare_channel("ch2", "raman_global")
